@@ -2,6 +2,7 @@ package rules
 
 import (
 	"fmt"
+	"go/token"
 	"go/types"
 	"sort"
 	"strings"
@@ -188,7 +189,7 @@ func C12(c *Ctx) {
 	r.Rule("R12.2", "caches purged: every path of RollbackState that reverts a journal first clears the in-block account map and the account cache; AccountCache.clear purges every lru layer of the cache struct.")
 	r.Rule("R12.3", "journal completeness: the storage kinds written by Commit (account record, code, state key) are exactly the kinds revertJournal restores, each with put and delete; the journal record of a height is put into the same batch as that height's data and the max-height marker; each reverted height deletes its journal record and lowers the max-height marker in the batch that carries the reverted data.")
 	r.Rule("R12.5", "restore only what changed: in revertJournal every Put / Delete of an account record lies behind the entry's AccountChanged flag and every Put / Delete of code behind CodeChanged; an entry that records only storage changes must leave the stored account record (balance, nonce, code hash) untouched.")
-	r.Rule("R12.4", "root chain continues: after reverting, every successful path stores prevJnlHash (re-read from the target height's journal) and maxJnlHeight.")
+	r.Rule("R12.4", "root chain continues: after reverting, every successful path stores prevJnlHash (re-read from the target height's journal) and maxJnlHeight; a value other than that journal's root is stored only behind height == 0 or is overwritten before every return; the rollback is refused exactly when minJnlHeight > height (any spelling of that comparison), so the target's journal record exists whenever it is read.")
 	r.NotDecided = append(r.NotDecided, "value-level equality of restored state; re-execution equivalence")
 
 	rs := c.fn("R12.1", "internal/ledger.(*SimpleLedger).RollbackState")
@@ -413,5 +414,130 @@ func C12(c *Ctx) {
 			}
 		}
 		r.Check(okRead, "R12.4", "RollbackState: root taken from the target height's journal", c.P.Pos(rs.Pos()), "prevJnlHash = getBlockJournal(height).ChangedHash", "the root restored after a rollback is not the one recorded for the target height")
+		// any other value (the zero hash) only for height 0, unless overwritten before returning
+		fromTarget := func(v ssa.Value) bool {
+			return core.Mentions(v, func(v ssa.Value) bool {
+				cc, ok := v.(*ssa.Call)
+				return ok && strings.HasSuffix(core.CalleeName(cc), "ledger.getBlockJournal") && hp != nil && core.Strip(cc.Call.Args[0]) == ssa.Value(hp)
+			})
+		}
+		zeroH := condEdges(rs, func(f core.Fact, ifi *ssa.If) (bool, int) {
+			if hp == nil {
+				return false, 0
+			}
+			if f.Kind == core.FEqConst && f.Const == "0" && f.Field == "" && core.Strip(f.Subject) == ssa.Value(hp) {
+				return true, holdsEdge(f)
+			}
+			if f.Kind == core.FCmp && (f.Op == token.EQL || f.Op == token.NEQ) {
+				var other ssa.Value
+				if f.Subject == ssa.Value(hp) {
+					other = f.Other
+				} else if f.Other == ssa.Value(hp) {
+					other = f.Subject
+				}
+				if k, ok := core.ConstInt(other); ok && k == 0 {
+					e := holdsEdge(f)
+					if f.Op == token.NEQ {
+						e = 1 - e
+					}
+					return true, e
+				}
+			}
+			return false, 0
+		})
+		notZero := core.Reach([]core.Point{core.EntryOf(rs)}, nil, core.CutOf(zeroH))
+		isPJ := storesToField("SimpleLedger", "prevJnlHash")
+		for i, in := range sites(rs, isPJ) {
+			st := in.(*ssa.Store)
+			if fromTarget(st.Val) {
+				continue
+			}
+			key := fmt.Sprintf("RollbackState: root not read from the target journal #%d only for height 0", i)
+			if zeroH.Len() > 0 && !notZero.Has(in) {
+				r.OK("R12.4", key, c.P.Pos(in.Pos()), "the empty root is stored only behind height == 0")
+				continue
+			}
+			after := core.Reach([]core.Point{core.After(in)}, func(x ssa.Instruction) bool { return x != in && isPJ(x) }, nil)
+			escapes := false
+			for _, ret := range core.Returns(rs) {
+				if after.Has(ret) {
+					escapes = true
+				}
+			}
+			r.Check(!escapes, "R12.4", key, c.P.Pos(in.Pos()), "overwritten with the target journal's root on every path before the return",
+				"for a target height other than 0 a path returns with prevJnlHash set to something other than the root recorded for that height (a default in place of a missing journal): the next block's state root chains from the wrong value and diverges from the replicas that did not roll back")
+		}
+		// the refusal window: refuse exactly when minJnlHeight > height
+		nWin := 0
+		for _, b := range rs.Blocks {
+			ifi := core.IfOf(b)
+			if ifi == nil || hp == nil {
+				continue
+			}
+			f := core.CondFact(ifi.Cond)
+			if f.Kind != core.FCmp {
+				continue
+			}
+			off := func(v ssa.Value, isBase func(ssa.Value) bool) (int64, bool) {
+				v = core.Strip(v)
+				if isBase(v) {
+					return 0, true
+				}
+				if bo, ok := v.(*ssa.BinOp); ok && (bo.Op == token.ADD || bo.Op == token.SUB) {
+					if k, okk := core.ConstInt(bo.Y); okk && isBase(core.Strip(bo.X)) {
+						if bo.Op == token.SUB {
+							k = -k
+						}
+						return k, true
+					}
+					if k, okk := core.ConstInt(bo.X); okk && bo.Op == token.ADD && isBase(core.Strip(bo.Y)) {
+						return k, true
+					}
+				}
+				return 0, false
+			}
+			isMin := func(v ssa.Value) bool { _, fld, _, ok := core.FieldOf(v); return ok && fld == "minJnlHeight" }
+			isH := func(v ssa.Value) bool { return v == ssa.Value(hp) }
+			op := f.Op
+			var a, bb int64 // (min + a) op (height + bb)
+			a, okA := off(f.Subject, isMin)
+			bb, okB := off(f.Other, isH)
+			if !okA || !okB {
+				// swapped operands: (height + bb) op (min + a)
+				bb, okB = off(f.Subject, isH)
+				a, okA = off(f.Other, isMin)
+				if !okA || !okB {
+					continue
+				}
+				switch op {
+				case token.LSS:
+					op = token.GTR
+				case token.LEQ:
+					op = token.GEQ
+				case token.GTR:
+					op = token.LSS
+				case token.GEQ:
+					op = token.LEQ
+				}
+			}
+			// refusal holds when min - height > d (for GTR/GEQ), acceptance when min - height <= / < .. (LSS/LEQ are the complement)
+			var d int64
+			switch op {
+			case token.GTR:
+				d = bb - a
+			case token.GEQ:
+				d = bb - a - 1
+			case token.LEQ: // min + a <= height + bb  <=> not (min - height > bb - a)
+				d = bb - a
+			case token.LSS: // min + a < height + bb <=> not (min - height > bb - a - 1)
+				d = bb - a - 1
+			default:
+				continue
+			}
+			nWin++
+			r.Check(d == 0, "R12.4", fmt.Sprintf("RollbackState: refusal window #%d is minJnlHeight > height", nWin), c.P.Pos(ifi.Cond.Pos()), "the target height's own journal is retained whenever the rollback is accepted",
+				fmt.Sprintf("the comparison of the oldest retained journal height with the target is off by %d: a target whose journal record is no longer (or still) stored is accepted (or refused); the root of the target height cannot be re-read", d))
+		}
+		r.Floor("R12.4", "refusal comparisons minJnlHeight vs height", nWin, 1)
 	}
 }
